@@ -213,6 +213,16 @@ def _exec(op, kv):
             strict = [x for x in pk if x[1] > h]
             return "n=many " + show(strict) + f" +{len(pk) - len(strict)}@{num(h)}"
         return "n=many " + show(pk)
+    if op == "PRIMARY":
+        # the primary stage is NOT in the model (its normalising factor carries FFT rounding noise, which decides exact
+        # ties); this op only feeds the model-independent oracle `oracle_primary`
+        from src.correlation.sequence_generator import SequenceGenerator
+        ref, qry = C.parse_map(kv["REF"]), C.parse_map(kv["QRY"])
+        ia = qry.getInitialAlignment(ref, SequenceGenerator(int(kv["res"]), int(kv["blur"])), int(kv["mpd"]), int(kv["count"]),
+                                     kv["rev"] == "1")
+        if type(ia).__name__ == "EmptyInitialAlignment":
+            return "EMPTY"
+        return f"n={len(ia.correlation)} " + ",".join(f"{num(p.position)}:{float(p.height)!r}:{float(p.score)!r}" for p in ia.peaks)
     if op == "TOPN":
         import numpy as np
         from src.correlation.optical_map import CorrelationResult
@@ -225,11 +235,20 @@ def _exec(op, kv):
         import numpy as np
         return num(toRelativeGenomicPositions(np.array([int(kv["bin"])]), int(kv["res"]), int(kv["start"]))[0])
     if op == "SELECT":
-        class Corr:
-            pass
-        c = Corr()
-        c.peaks = [Peak(i, 0, 0, 0, s) for i, s in enumerate(ints(kv.get("S", "")))]
-        sel = PeaksSelector(int(kv["count"])).selectPeaks(iter([c]))
+        # S = scores of all peaks in arrival order; G = how many of them each correlation holds (default: one
+        # correlation); H = heights (default: the scores).  Real CorrelationResult objects, so that anything the selector
+        # may legitimately look at (peaks, maxPeak, getScore) is there.
+        import numpy as np
+        from src.correlation.optical_map import CorrelationResult
+        sc = ints(kv.get("S", ""))
+        hs = ints(kv.get("H", "")) if kv.get("H") else sc
+        groups = ints(kv.get("G", "")) if kv.get("G") else [len(sc)]
+        corrs, i = [], 0
+        for g in groups:
+            peaks = [Peak(j, hs[j], 0, 0, sc[j]) for j in range(i, i + g)]
+            corrs.append(CorrelationResult(np.array([]), None, None, peaks, False, 0.))
+            i += g
+        sel = PeaksSelector(int(kv["count"])).selectPeaks(iter(corrs))
         return ",".join(str(sp.peak.position) for sp in sel)
     if op == "FILTER":
         es = [t for t in kv.get("ROWS", "").split(",") if t]
